@@ -266,6 +266,8 @@ def call(prob, cfg, kktsolver_obj=None):
         if cfg.get('via') != 'global':
             solvers.options.clear()          # (a leak into the globals is then only visible to the 'global' route)
     okw = {'options': opts}
+    if cfg.get('poison') is not None:
+        solvers.options.update(cfg['poison'])    # global settings that a call with its own options= dictionary must not see
     if cfg.get('via') == 'global':
         for k_, v_ in opts.items():
             solvers.options.setdefault(k_, v_)   # what a leaking prelude left behind stays in place
